@@ -259,3 +259,36 @@ func concretiseAttestations(r *Replay) string {
 	_ = sort.Ints
 	return ""
 }
+
+// PRIMITIVE. HonestAttester is the spelling of the i-th honest attester: symbolically an arbitrary
+// short string; natively the hex encoding of the uncompressed public key of seeded key i.
+func HonestAttester(i int) string {
+	k := seededKey(7, i)
+	return hex.EncodeToString(ethcrypto.FromECDSAPub(&k.PublicKey))
+}
+
+// PRIMITIVE. HonestAttestation is an attestation of msg by the honest attesters 0..t-1: symbolically
+// arbitrary 65*t bytes (the harness assumes that they satisfy the attestation rule); natively real
+// signatures over keccak256(msg), ordered by signer address, recovery ids 0/1.
+func HonestAttestation(name string, msg []byte, t int) []byte {
+	digest := ethcrypto.Keccak256(msg)
+	type sg struct {
+		addr []byte
+		sig  []byte
+	}
+	var sigs []sg
+	for i := 0; i < t; i++ {
+		k := seededKey(7, i)
+		s, err := ethcrypto.Sign(digest, k)
+		if err != nil {
+			panic(err)
+		}
+		sigs = append(sigs, sg{addr: ethcrypto.PubkeyToAddress(k.PublicKey).Bytes(), sig: s})
+	}
+	sort.Slice(sigs, func(i, j int) bool { return bytes.Compare(sigs[i].addr, sigs[j].addr) < 0 })
+	var out []byte
+	for _, s := range sigs {
+		out = append(out, s.sig...)
+	}
+	return out
+}
